@@ -162,6 +162,24 @@ def run(ctx):
                         continue
                     st = dict(tzs, RELATIVE_BASE=b, PREFER_DATES_FROM=pf)
                     jobs.append((R.choice(["parse", "gdd"]), s, {"languages": ["en"], "settings": st}, None)); expect.append(None)
+    # every name of the library's own timezone table, in the table's spelling, lower case and capitalised, as TIMEZONE / TO_TIMEZONE: whether a
+    # spelling is a valid value is the library's decision, but it is a decision about the *setting* — accepted (no exception for any string) or
+    # rejected (SettingValidationError for every string), never an exception that depends on the date string
+    from props.c11 import table as _tz_table
+    tznames = sorted({name for blk in _tz_table() for name, _ in blk["timezones"] if "\\" not in name})
+    tznames += ["UTC+03:00", "GMT+3", "UTC-5", "GMT-0330", "Etc/GMT+5", "Australia/ACT", "US/East-Indiana"]
+    spell = [sp for nm in tznames for sp in {nm, nm.lower(), nm.capitalize(), nm.upper()}]
+    if tier == "quick":
+        spell = R.sample(spell, 160) + ["cest", "Pst", "utc+03:00", "gmt+3", "msk"]
+    consistent = collections.defaultdict(list)
+    for sp in spell:
+        for key in ("TIMEZONE", "TO_TIMEZONE"):
+            for s_, extra in (("2020-01-15 10:00", {}), ("15 January 2020 10:00 +0200", {}), ("in 2 days", {}), ("2 days ago", {"RELATIVE_BASE": D(2020, 5, 17, 12, 0)}),
+                              ("1484823450", {}), ("no date here", {}), ("15.01.2020 10:00 +0100", {"fmt": "%d.%m.%Y %H:%M %z"})):
+                extra = dict(extra)
+                fm = extra.pop("fmt", None)
+                consistent[(sp, key)].append(len(jobs))
+                jobs.append(("parse", s_, {"languages": ["en"], "settings": dict(extra, **{key: sp})}, [fm] if fm else None)); expect.append("setting-decides")
     # invalid configuration / wrongly typed arguments: the documented exception, whatever the string
     bad_settings = [({"UNKNOWN": 1}, "SettingValidationError"), ({"DATE_ORDER": "XYZ"}, "SettingValidationError"), ({"STRICT_PARSING": "yes"}, "SettingValidationError"),
                     ({"PREFER_DATES_FROM": "yesterday"}, "SettingValidationError"), ({"REQUIRE_PARTS": ["hour"]}, "SettingValidationError"), ({"PARSERS": ["foo"]}, "SettingValidationError"),
@@ -197,6 +215,9 @@ def run(ctx):
                 why = "exception %s escaped for a valid configuration" % val
             elif val:
                 distinct.add(str(job[1]))
+        elif exp == "setting-decides":
+            if tag == "exc" and val != "SettingValidationError":
+                why = "exception %s escaped for a timezone setting" % val
         else:
             if tag != "exc" or val != exp:
                 why = "expected %s, got %s %s" % (exp, tag, val)
@@ -206,6 +227,12 @@ def run(ctx):
                 kh[val] += 1
                 continue
             viol.append({"api": job[0], "string": job[1], "kwargs": job[2], "date_formats": job[3], "why": why})
+    for (sp, key), idxs in consistent.items():
+        tags = {("rejected" if res[i] == ("exc", "SettingValidationError") else "accepted") for i in idxs if res[i][0] != "bad"}
+        if len(tags) > 1 and len(viol) < 40:
+            i = [i for i in idxs if res[i][0] == "exc"][0]
+            viol.append({"api": "parse", "string": jobs[i][1], "kwargs": jobs[i][2], "date_formats": jobs[i][3],
+                         "why": "the setting %s=%r is rejected for this string and accepted for others" % (key, sp)})
     # model tie: valid-stream cases the model can take (explicit languages, naive/aware RELATIVE_BASE)
     drift = []
     rej = collections.Counter()
